@@ -17,6 +17,8 @@ import os
 import subprocess
 import sys
 import threading
+import time
+import random
 
 from ..api import J, call
 from ..core import VERIF, SRC, canon, h64
@@ -810,6 +812,69 @@ def systematic(ctx, spec, pairs, base, bound, sysm: Systematic):
         ctx.count("pairs_explored")
 
 
+def churn(ctx, rng, T, p_yield, seconds):
+    """bounded memories under concurrency: threads consume tokens drawn at random from working sets far larger than any sensible cache (hundreds of distinct
+    salts, keys and ephemeral keys over the same shared key objects and algorithm models), so that whatever a call remembers is looked up, refreshed and
+    pushed out by other threads all the time; every single call still returns what it returns in isolation"""
+    from refjose import jws as rjws
+    j = J.load()
+    pw = gen.new_oct(256)
+    ec = gen.new_ec("P-256")
+    n_set = 300 if ctx.tier == "quick" else 1200
+    sets = {"pbes2": [], "hs": [], "ecdh": [], "gcmkw": []}
+    for i in range(n_set):
+        pt = b"churn %d" % i
+        sets["pbes2"].append((g.make("compact", "A128GCM", [("PBES2-HS256+A128KW", pw, None)], pt, p2c=8 + i % 3).token, pt))
+        if i % 3 == 0:
+            hk = gen.new_oct(256)
+            sets["hs"].append(((rjws.compact({"alg": "HS256"}, pt, RefKey.from_jwk(hk)), hk), pt))
+            sets["ecdh"].append((g.make("compact", "A128GCM", [("ECDH-ES+A128KW", ec, None)], pt).token, pt))
+            sets["gcmkw"].append((g.make("compact", "A128GCM", [("A256GCMKW", pw, None)], pt).token, pt))
+    kpw, kec = j.key(pw), j.key(ec)
+    hs_keys = {id(x): j.key(x[0][1]) for x in sets["hs"]}
+    regs = {"pbes2": j.jwe.JWERegistry(algorithms=["PBES2-HS256+A128KW", "A128GCM"]), "ecdh": j.jwe.JWERegistry(algorithms=["ECDH-ES+A128KW", "A128GCM"]),
+            "gcmkw": j.jwe.JWERegistry(algorithms=["A256GCMKW", "A128GCM"])}
+    fams = ["pbes2", "pbes2", "pbes2", "hs", "ecdh", "gcmkw"]
+    stop_at = time.time() + seconds
+    bad = []
+    counts = [0] * T
+
+    def worker(i):
+        r = random.Random(f"churn-{ctx.seed}-{ctx.shard}-{i}")
+        while time.time() < stop_at and not bad:
+            fam = r.choice(fams)
+            item = r.choice(sets[fam])
+            try:
+                if fam == "hs":
+                    got = j.jws.deserialize_compact(item[0][0], hs_keys[id(item)], algorithms=["HS256"]).payload
+                else:
+                    got = j.jwe.decrypt_compact(item[0], kpw if fam != "ecdh" else kec, registry=regs[fam]).plaintext
+                if got != item[1]:
+                    bad.append((fam, "other-content", repr(got)[:60]))
+            except Exception as e:  # noqa
+                bad.append((fam, type(e).__name__, repr(e)[:200]))
+            counts[i] += 1
+    st = Stress(ctx.seed * 1000 + ctx.shard + 7, p_yield).start()
+    try:
+        th = [threading.Thread(target=worker, args=(i,), daemon=True) for i in range(T)]
+        for x in th:
+            x.start()
+        for x in th:
+            x.join(timeout=seconds + 120)
+    finally:
+        st.stop()
+    ctx.count("churn_calls", sum(counts))
+    ctx.count("shared_calls", sum(counts))
+    ctx.count("stress_line_events", st.line_events)
+    ctx.count("stress_forced_yields", st.yields)
+    ctx.max("churn_working_set", n_set)
+    ctx.cell("churn", f"T={T}")
+    ctx.nontrivial(("churn", T, sum(counts)))
+    for fam, what, detail in bad[:3]:
+        ctx.violation(f"churn:{fam}:{what}", f"{T} threads consuming tokens of a working set of {n_set} distinct salts / keys / ephemeral keys over shared key objects: a valid "
+                      f"{fam} token was not consumed as in isolation: {detail}", {"mode": "churn", "threads": T, "family": fam})
+
+
 def run_shard(ctx):
     j = J.load()
     J.register_drafts()
@@ -823,6 +888,10 @@ def run_shard(ctx):
     sh = ctx.shard
     quick = ctx.tier == "quick"
     total = ctx.budget_s
+    if sh in (14, 15):
+        # two shards spend the larger part of their budget on working-set churn
+        churn(ctx, rng, 8 if sh == 15 else 3, [0.3, 0.1][sh - 14], 0.6 * total)
+        total = ctx.budget_s = ctx.elapsed() + 0.4 * total
     # (a) 15 % of the budget
     ctx.budget_s = ctx.elapsed() + 0.15 * total
     sequential(ctx, spec, ops, base, rng, 3 if quick else 400, 500)
